@@ -40,3 +40,16 @@ func (r *RNG) Pick(xs ...int) int { return xs[r.Intn(len(xs))] }
 
 // Fork derives an independent stream (for workers) deterministically.
 func (r *RNG) Fork() *RNG { return NewRNG(r.U64()) }
+
+// Perm returns a random permutation of 0..n-1.
+func (r *RNG) Perm(n int) []int {
+	p := make([]int, n)
+	for i := range p {
+		p[i] = i
+	}
+	for i := n - 1; i > 0; i-- {
+		j := r.Intn(i + 1)
+		p[i], p[j] = p[j], p[i]
+	}
+	return p
+}
